@@ -46,3 +46,18 @@
 (define-fun quiet ((v Val) (depth Int)) Bool (and (escV v) (< (+ depth (height v)) 1000)))
 (define-fun-rec anyKeyL ((l Lst) (k String)) Bool
   (ite ((_ is LNil) l) false (or (and ((_ is VMap) (hd l)) (not (= (select (mc (hd l)) k) VAbsent))) (anyKeyL (tl l) k))))
+; ---- popListMapValue(l, k): the directive entry {k: v} of a list (a map with exactly that one key)
+;   plmvE l k r : a second such entry while one with a non-null value was already taken (r) is an error
+;   plmvV l k r : the value taken (the last one seen; earlier ones can only have been null)
+;   plmvR l k   : the list without those entries
+(define-fun isSingK ((x Val) (k String)) Bool
+  (and ((_ is VMap) x) (= (mlen (mc x)) 1) (not (= (select (mc x) k) VAbsent))))
+(define-fun-rec plmvE ((l Lst) (k String) (r Val)) Bool
+  (ite ((_ is LNil) l) false
+       (ite (isSingK (hd l) k) (ite (not (= r VNil)) true (plmvE (tl l) k (select (mc (hd l)) k))) (plmvE (tl l) k r))))
+(define-fun-rec plmvV ((l Lst) (k String) (r Val)) Val
+  (ite ((_ is LNil) l) r
+       (ite (isSingK (hd l) k) (plmvV (tl l) k (select (mc (hd l)) k)) (plmvV (tl l) k r))))
+(define-fun-rec plmvR ((l Lst) (k String)) Lst
+  (ite ((_ is LNil) l) LNil
+       (ite (isSingK (hd l) k) (plmvR (tl l) k) (LCons (hd l) (plmvR (tl l) k)))))
